@@ -99,6 +99,8 @@ class World:
         I.overrides[MSA + '::save'] = save
         I.overrides['io_utils::set_ostream'] = ostream
         I.text_files = self.text
+        for name, fn in getattr(self, 'extra_overrides', {}).items():       # recorders standing in for a library entry point (cli_more.py)
+            I.overrides[name] = fn
         try:
             I.call_fn('main', [])
             status = 0
